@@ -59,6 +59,15 @@ def _measure_job(job):
                         problems.append("tomography circuit %d: %s on register qubits %s = list positions (%d,%d), not coupled in %d-%s" % (i, name, qq, a, b, m, conn))
             if want is not None and [(a, list(b)) for a, b in g] != want:
                 problems.append("tomography circuit %d is not MUB circuit %d mapped through the qubit list" % (i, i))
+        # the same list given as Qubit objects of a preparation circuit with TWO quantum registers
+        if N >= 2:
+            from qiskit import QuantumRegister
+            prep2 = QuantumCircuit(QuantumRegister(1, "a"), QuantumRegister(N - 1, "b"))
+            circs2 = tomo.full_state_tomography_circuits(prep2, conn, [prep2.qubits[i] for i in mq])
+            for i, (c, c2) in enumerate(zip(circs, circs2)):
+                if ztab.gates_of(c, allow_measure=True) != ztab.gates_of(c2, allow_measure=True):
+                    problems.append("tomography circuit %d differs when the same qubits are given as Qubit objects of a two-register circuit" % i)
+                    break
         ctx.prove("full_state_tomography_circuits: every two-qubit gate lies on a coupled pair after mapping through the list %s: %s" % (mq, problems[:2]), 0 if problems else 1,
                   info=dict(mq=mq, which="tomography"))
         problems = []
@@ -67,6 +76,15 @@ def _measure_job(job):
             s = st.Stabilizer(loader.sym("graph").Graph(np.array(adj, dtype=np.int8).view(loader.sym("graph").np.ndarray) if False else _sym_adj(adj)))
             c = tomo.stabilizer_measurement_circuit(prep, s, conn, mq)
             g = ztab.gates_of(c, allow_measure=True)
+            if N >= 2:
+                from qiskit import QuantumRegister
+                prep2 = QuantumCircuit(QuantumRegister(1, "a"), QuantumRegister(N - 1, "b"))
+                try:
+                    c2 = tomo.stabilizer_measurement_circuit(prep2, s, conn, [prep2.qubits[i] for i in mq])
+                    if ztab.gates_of(c2, allow_measure=True) != g:
+                        problems.append("class %d: circuit differs when the qubits are given as Qubit objects of a two-register circuit" % cid)
+                except Exception as e:
+                    problems.append("class %d: Qubit-object list raised %s" % (cid, type(e).__name__))
             for name, qq in g:
                 if len(qq) == 2:
                     try:
@@ -100,6 +118,7 @@ def run(tier, seed):
     ck.bounds += ["part 1: all 20 advertised configurations, reported coupling graph == hand-transcribed edge table",
                   "part 2: every stabilizer-table line and every MUB line (complete, finite)",
                   "part 3: on every leaf of the C01/C03 families: ordered list of two-qubit instructions equals the table entry's (reversed for readout), all on coupled pairs, no gate on >2 qubits",
+                  "part 4 also passes each list as Qubit objects of a two-register preparation circuit (same circuits expected)",
                   "part 4: measured-qubit lists: every ordered m-subset of an N-qubit register for m<=3 (N<=m+2) and m=4 (N<=5, thorough; quick: seeded lists); seeded non-ascending lists for m=5,6 (N<=m+2)"]
     ck.bounds += ["Fc0: EVERY class of EVERY configuration once (table graph, seeded concrete local-Clifford layer - thorough: one symbolic qubit for n<=5 -, seeded basis change, 2 sign vectors)"]
     ck.outside += ["compressed circuits (C07)", "N > m+2"]
@@ -195,7 +214,7 @@ def replay(case):
         off = [g for g in gates if len(g[1]) > 2 or (len(g[1]) == 2 and (min(g[1]), max(g[1])) not in es)]
         return bool(off), "off-graph %s" % off[:2]
     if kind == "measure":
-        from qiskit import QuantumCircuit
+        from qiskit import QuantumCircuit, QuantumRegister
         from htstabilizer import tomography as tomo
         from htstabilizer.stabilizer import Stabilizer
         from htstabilizer.graph import Graph
@@ -211,6 +230,18 @@ def replay(case):
             for cid in case["classes"]:
                 adj = tables.rep_graph(m, cid)
                 circs.append(tomo.stabilizer_measurement_circuit(prep, Stabilizer(Graph(np.array(adj, dtype=np.int8))), conn, mq))
+        # the same request with Qubit objects of a two-register preparation circuit
+        if N >= 2:
+            prep2 = QuantumCircuit(QuantumRegister(1, "a"), QuantumRegister(N - 1, "b"))
+            ql = [prep2.qubits[i] for i in mq]
+            try:
+                if case["which"] == "tomography":
+                    circs += tomo.full_state_tomography_circuits(prep2, conn, ql)
+                else:
+                    for cid in case["classes"]:
+                        circs.append(tomo.stabilizer_measurement_circuit(prep2, Stabilizer(Graph(np.array(tables.rep_graph(m, cid), dtype=np.int8))), conn, ql))
+            except Exception as e:
+                return True, "Qubit-object list on a two-register circuit raised %r" % (e,)
         for c in circs:
             for name, qq in dense.gates_of(c):
                 if len(qq) > 2:
